@@ -45,6 +45,10 @@ def random_pattern_pair(rng):
     vy = vx[:shared] + names[nx:nx + ny - shared]
     rng.shuffle(vy)
 
+    if rng.random() < 0.25:
+        vx = vx + [rng.choice(vx)]            # a variable that occurs twice inside one pattern
+        rng.shuffle(vx)
+
     def tree(vs):
         if len(vs) == 1:
             return ('A', vs[0], None)
@@ -186,6 +190,8 @@ def run(spec, R):
         R.inconclusive_because(f'only {len(pats)} pattern pairs found in the grammar sources')
     en_atoms = gens.en_atoms(feats=(None, 'X', 'nb', 'dcl', 'b', 'em'), punct=('conj', ','))
     ja_atoms = gens.ja_atoms()
+    # the same base with the other key set (compatible values but different keys must not match)
+    ja_atoms = ja_atoms + [('A', 'S', ('T', (('case', 'X1'), ('mod', 'nm'), ('fin', 'f')))), ('A', 'NP', ('T', (('mod', 'nm'), ('form', 'X2'), ('fin', 'f'))))]
     for i in range(spec['cases']):
         px, py, x, y = gen_case(rng, pats, en_atoms, ja_atoms)
         one_case(px, py, x, y, R, sample=i < 3)
